@@ -558,6 +558,16 @@ def check_content_right_trim(prog: Program, res: Result, rule: str) -> None:
         c = tokmod.classes.get(name)
         return c is not None and any(k.name in covered for k in prog.mro(c))
 
+    # text followed by text (the lexer splits literal text at `{#` that opens no comment): no trimming between the two
+    text_next = any(
+        isinstance(i, ast.If) and (("isinstance(peeked, ContentToken)" in norm(i.test)) or ("is_content_token(peeked)" in norm(i.test))) and any(norm(b) == "right_trim = WhitespaceControl.PLUS" for b in i.body)
+        for i in ast.walk(cp.node)
+    )
+    what_t = "Content.parse: text followed by more text keeps its trailing whitespace (right_trim = PLUS), whatever the default trim mode"
+    if text_next:
+        res.ok(rule, f"{cp.file}:{cp.node.lineno} Content.parse", what_t, "ContentToken branch sets PLUS")
+    else:
+        res.fail(rule, file=cp.file, line=cp.node.lineno, qualname="Content.parse", construct="text followed by text takes the default trim", message="when literal text is followed by more literal text (the lexer splits at a `{#` that opens no comment) its right side takes the environment's default trim: with default_trim='-' whitespace in the middle of plain text disappears, next to no markup at all", what=what_t)
     missing = sorted(m for m in markup_classes if not base_covered(m))
     what = "Content.parse takes right_trim = peeked.wc[0] for every markup token class"
     if not missing and "right_trim = peeked.wc[0]" in norm(cp.node, 3000) and "stream.peek()" in norm(cp.node, 3000):
